@@ -115,6 +115,28 @@ def mk_arr(a):
     return arr
 
 
+def mk_ro(a, S):
+    """a component that is a genuinely READ-ONLY ndarray, and the writable base through which its values can still change:
+    'broadcast_to' (np.broadcast_to of a smaller base), 'view' (read-only view of a writable base), 'flag' (the array's own
+    writeable flag cleared; re-enabled for an edit), 'frombuffer' (np.frombuffer of immutable bytes: no base)."""
+    spec = dict(a, form='ndarray')
+    spec.pop('ro', None)
+    base = np.array(mk_arr(spec))
+    ro = a['ro']
+    if ro == 'broadcast_to':
+        return np.broadcast_to(base, tuple(S)), base
+    if ro == 'view':
+        v = base.view()
+        v.flags.writeable = False
+        return v, base
+    if ro == 'flag':
+        base.flags.writeable = False
+        return base, base
+    if ro == 'frombuffer':
+        return np.frombuffer(base.tobytes(), dtype=base.dtype).reshape(base.shape), None
+    raise ValueError(ro)
+
+
 def mk_coord(c):
     from regions import PixCoord
     return PixCoord(mk_arr(c['x']), mk_arr(c['y']))
@@ -374,7 +396,9 @@ class Check(PropertyCheck):
             'histories: the SAME PixCoord object through 3-8 calls of '
             'to_sky with varying (wcs object, origin, mode), from_sky of the last result in another convention, in-place edits of an '
             'element of pc.x / pc.y, separation / rotate twice with the same argument objects, copy() / copy.deepcopy / copy.copy called '
-            'repeatedly on the object and on a twin holding the same x/y arrays with edits of the original and of single copies in between '
+            'repeatedly on the object and on a twin holding the same x/y arrays with edits of the original and of single copies in between, also for '
+            'coordinates whose x / y are genuinely read-only arrays (np.broadcast_to, read-only view of a writable base, writeable flag cleared, '
+            'np.frombuffer) whose values change through the base array '
             '(every copy = the current values, shares no memory with the original or any other copy, is unaffected by later edits), rotate called '
             'repeatedly with ONE angle object (Quantity / Angle) modified in place between the calls (+=, *=, angle[...] = v) on this and on another '
             'coordinate, each checked against the rotation by the current value of the angle object - every call compared with the '
@@ -790,6 +814,31 @@ class Check(PropertyCheck):
         editable = (not broadcast) and s != [] and prod(s) > 0
         steps = []
         copy_flavour = rng.random() < 0.4
+        readonly = copy_flavour and s != [] and prod(s) > 0 and rng.random() < 0.5
+        if readonly:
+            # x and/or y are genuinely read-only arrays (their values can still change through the base array)
+            full = lambda dt: self._arr(rng, s, dt)
+            kx = rng.choice(['broadcast_to', 'broadcast_to', 'view', 'flag', 'frombuffer', None])
+            ky = rng.choice(['view', 'flag', 'frombuffer', 'broadcast_to', None]) if kx else rng.choice(['view', 'flag', 'frombuffer', 'broadcast_to'])
+            def comp(kind, dt):
+                if kind == 'broadcast_to':
+                    t = [d if rng.random() < 0.5 else 1 for d in s]
+                    t = t[rng.randint(0, len(t)):] if rng.random() < 0.4 else t
+                    a = self._arr(rng, t, dt)
+                else:
+                    a = full(dt)
+                a['form'] = 'ndarray'
+                if kind:
+                    a['ro'] = kind
+                return a
+            p = {'x': comp(kx, 'float' if rng.random() < 0.7 else 'int'), 'y': comp(ky, 'float')}
+            if kx == 'broadcast_to' and ky == 'broadcast_to':
+                p['y'] = comp('view', 'float')          # one component must carry the full shape
+            for k in ('x', 'y'):
+                c0 = Fraction(w0['crpix'][cref(w0, k)])
+                p[k]['data'] = [frac(Fraction(v) + (c0 if p[k]['dtype'] == 'float' else round(c0))) for v in p[k]['data']]
+            broadcast = True        # no direct in-place edits of pc.x / pc.y: they are read-only
+            editable = False
         angle_flavour = (not copy_flavour) and rng.random() < 0.4
         angle0 = self._angle(rng)
         if abs(Fraction(angle0['v'])) > 10 ** 6:
@@ -823,6 +872,11 @@ class Check(PropertyCheck):
                     ncopies += how != 'copy.copy'
                 elif r2 < 0.75 and editable:
                     steps.append(dict(op='edit', **edit_step()))
+                elif r2 < 0.75 and readonly and any(p[k].get('ro') != 'frombuffer' for k in ('x', 'y')):
+                    k = rng.choice([k for k in ('x', 'y') if p[k].get('ro') != 'frombuffer'])
+                    c0 = Fraction(w0['crpix'][cref(w0, k)])
+                    v = Fraction(rng.randint(-400, 400), 8) + c0 if p[k]['dtype'] == 'float' else Fraction(rng.randint(-50, 50) + round(c0))
+                    steps.append({'op': 'base_edit', 'attr': k, 'bidx': rng.randrange(prod(p[k]['shape'])), 'val': frac(v)})
                 elif s != [] and prod(s) > 0:
                     steps.append(dict(op='copy_edit', k=rng.randrange(4), **edit_step()))
                 else:
@@ -883,6 +937,13 @@ class Check(PropertyCheck):
             if step['op'] == 'edit':
                 cur[step['attr']][step['idx']] = Fraction(step['val'])
                 st = cur
+            if step['op'] == 'base_edit':
+                a = case['p'][step['attr']]
+                src = py_bvalues(a['shape'], list(range(prod(a['shape']))), cur['shape'])
+                for j, b in enumerate(src):
+                    if b == step['bidx']:
+                        cur[step['attr']][j] = Fraction(step['val'])
+                st = cur
             if step['op'] == 'copy' and step['how'] != 'copy.copy':
                 copies.append({'shape': cur['shape'], 'x': list(cur['x']), 'y': list(cur['y'])})
             if step['op'] == 'copy_edit' and copies:
@@ -911,7 +972,19 @@ class Check(PropertyCheck):
 
     def _hist_real(self, case):
         from regions import PixCoord
-        p = attempt(lambda: mk_coord(case['p']))
+        bases = {}
+        if any('ro' in case['p'][k] for k in ('x', 'y')):
+            S0 = py_bshape(case['p']['x']['shape'], case['p']['y']['shape'])
+            comps = {}
+            for k in ('x', 'y'):
+                a = case['p'][k]
+                if 'ro' in a:
+                    comps[k], bases[k] = mk_ro(a, S0)
+                else:
+                    comps[k] = bases[k] = np.array(mk_arr(dict(a, form='ndarray')))
+            p = attempt(lambda: PixCoord(comps['x'], comps['y']))
+        else:
+            p = attempt(lambda: mk_coord(case['p']))
         if is_err(p):
             return {'ctor': p}
         wcss = [mk_wcs(w) for w in case['wcss']]
@@ -960,9 +1033,24 @@ class Check(PropertyCheck):
                             return False
                         return bool(any(np.shares_memory(u, v) for u in (a.x, a.y) for v in (b.x, b.y)))
                     if step['how'] != 'copy.copy':
+                        r['shares_base'] = bool(not c.isscalar and np.size(c.x) and any(
+                            b is not None and np.shares_memory(u, b) for u in (c.x, c.y) for b in bases.values()))
+                        r['writeable'] = bool(c.isscalar or (c.x.flags.writeable and c.y.flags.writeable))
                         r['shares_orig'] = shares(c, p)
                         r['shares_prev'] = [shares(c, d) for d in copies]
                         copies.append(c)
+            elif op == 'base_edit':
+                def edb():
+                    b = bases[step['attr']]
+                    v = Fraction(step['val'])
+                    was = b.flags.writeable
+                    b.flags.writeable = True            # ('flag' components: the owner re-enables writing)
+                    b.flat[step['bidx']] = int(v) if b.dtype.kind in 'iu' else float(v)
+                    b.flags.writeable = was
+                    return True
+                e = attempt(edb)
+                if is_err(e):
+                    r['edit'] = e
             elif op == 'copy_edit':
                 if copies:
                     def ed2():
@@ -1127,7 +1215,7 @@ class Check(PropertyCheck):
         V = []
         def bad(kind, detail, i):
             V.append({'kind': kind, 'detail': f'{detail} :: history step {i}: '
-                      f'{ {k: v for k, v in case["steps"][i].items() if k in ("op", "wcs", "origin", "mode", "attr", "idx", "val", "how", "who", "k", "mod")} }'
+                      f'{ {k: v for k, v in case["steps"][i].items() if k in ("op", "wcs", "origin", "mode", "attr", "idx", "val", "how", "who", "k", "mod", "bidx")} }'
                       f' after {[s_["op"] + (str(s_.get("origin", "")) + s_.get("mode", "")) for s_ in case["steps"][:i]]}', 'step': i})
         if 'ctor' in real:
             if py_bshape(case['p']['x']['shape'], case['p']['y']['shape']) is not None:
@@ -1202,11 +1290,17 @@ class Check(PropertyCheck):
                     bad('copy_not_current_values', f"{step['how']} of {step['who']}: x={c['x'][:6]} y={c['y'][:6]} "
                         f"expected x={[frac(v) for v in X[:6]]} y={[frac(v) for v in Y[:6]]}", i)
                 if step['how'] != 'copy.copy':
+                    if r.get('shares_base'):
+                        bad('copy_shares_memory_with_base_array', f"{step['how']} of {step['who']} "
+                            f"(x: {case['p']['x'].get('ro')}, y: {case['p']['y'].get('ro')})", i)
                     if r.get('shares_orig'):
                         bad('copy_shares_memory_with_original', f"{step['how']} of {step['who']}", i)
                     if any(r.get('shares_prev', [])):
                         bad('copy_shares_memory_with_earlier_copy', f"{step['how']} of {step['who']}: shares with copies "
                             f"{[j for j, b_ in enumerate(r['shares_prev']) if b_]}", i)
+            elif op == 'base_edit':
+                if 'edit' in r:
+                    bad('harness_base_edit_failed', r['edit'], i)
             elif op == 'copy_edit':
                 if 'edit' in r:
                     bad('edit_of_copy_failed', r['edit'], i)
